@@ -85,6 +85,7 @@ class C10(Spec):
     component = 'c10'
     configs = ['default', 'checks']
     quick_count = 400
+    header_len = 4
     thorough_count = 6000
     trusted_base = COMMON_TB + ['modelled rather than verified: /repo/src/group/mod.rs for P = Perm (Group::new, Next::new, build_ot, schreiers_lemma, find_lowest_nonstab, contains, all_perms, count, orbit, generators, add_set); hash-set iteration order fixed to list order in the model',
                                  'hook: src/verif_hooks.rs (cfg slotted_egraphs_verif) exposes Group<Perm> read-only']
